@@ -41,8 +41,18 @@ fn observe_glob(g: &Glob<'_>, paths: &[String]) -> Vec<String> {
         let m = g.matched(&c);
         let is = g.is_match(p.as_str());
         let base = c.as_ref().as_ptr() as usize;
-        let caps: Option<Vec<Option<(usize, String)>>> = m.as_ref().map(|m| {
-            (0..=n + 2).map(|i| m.get(i).map(|s| ((s.as_ptr() as usize).wrapping_sub(base), s.to_string()))).collect()
+        // (the offset of a capture inside the candidate is observed only where the slice aliases the
+        // candidate; the API does not promise that it does)
+        let plen = c.as_ref().len();
+        let caps: Option<Vec<Option<(Option<usize>, String)>>> = m.as_ref().map(|m| {
+            (0..=n + 2)
+                .map(|i| {
+                    m.get(i).map(|s| {
+                        let off = (s.as_ptr() as usize).wrapping_sub(base);
+                        (if off <= plen && off + s.len() <= plen { Some(off) } else { None }, s.to_string())
+                    })
+                })
+                .collect()
         });
         let owned: Option<Vec<Option<String>>> =
             match guard(move || m.map(|m| m.into_owned()).map(|m| (0..=n + 2).map(|i| m.get(i).map(String::from)).collect::<Vec<_>>())) {
@@ -74,6 +84,10 @@ fn observe_any(a: &Any<'_>, paths: &[String]) -> Vec<String> {
         out.push(format!("{:?}: is={} complete={:?}", p, a.is_match(p.as_str()), m.map(|m| m.complete().to_string())));
     }
     out
+}
+
+thread_local! {
+    static POSTFIX_SUBJECTS: std::cell::Cell<u64> = std::cell::Cell::new(0);
 }
 
 fn first_diff(a: &[String], b: &[String]) -> String {
@@ -109,7 +123,7 @@ impl Property for C19 {
         }
     }
     fn required_counters(&self) -> Vec<&'static str> {
-        vec!["built", "nested_branch", "any_routes_compared", "matched_some"]
+        vec!["built", "nested_branch", "any_routes_compared", "matched_some", "postfix_subjects"]
     }
     fn decode(&self, t: &mut Tape) -> Case {
         let cfg = GenCfg::default();
@@ -174,8 +188,34 @@ impl Property for C19 {
                     },
                 }
             }
+            // a partition postfix is a glob too: displaying it and building the displayed text must
+            // give the same glob.  (Not judged where the popped prefix carried a flag group or the
+            // expression begins with a repetition: the open findings F-PART-FLAGS / F-PART-REPROOT
+            // are C08's and C17's to report.)
+            let plain = !text.contains("(?") && !matches!(case.expr.iter().find(|t| !t.is_flag()), Some(Tok::Rep { .. }));
+            if plain {
+                if let (_, Some(post)) = g0.clone().partition() {
+                    let shown = post.to_string();
+                    // the paths are judged relative to nothing in particular: any text will do
+                    let op = observe_glob(&post, &case.paths);
+                    match Glob::new(&shown) {
+                        Err(e) => return Err(format!("`{}`: its partition postfix displays as `{}`, which does not build: {}", text, shown, e)),
+                        Ok(g) => {
+                            let o = observe_glob(&g, &case.paths);
+                            if o != op {
+                                return Err(format!("`{}`: its partition postfix `{}` behaves differently from the glob built from its display: {}", text, shown, first_diff(&op, &o)));
+                            }
+                        },
+                    }
+                    POSTFIX_SUBJECTS.with(|c| c.set(c.get() + 1));
+                }
+            }
             Ok(Some(o0.join("\n")))
         });
+        let n_post = POSTFIX_SUBJECTS.with(|c| c.replace(0));
+        if n_post > 0 {
+            st.add("postfix_subjects", n_post);
+        }
         let obs = match r {
             Ok(Ok(Some(o))) => o,
             Ok(Ok(None)) => {
